@@ -52,7 +52,16 @@ func (x *Exec) callWith(fr *Frame, st *State, c *ssa.CallCommon, fv Value, args 
 		if f.Origin != "" {
 			if ct := x.prog.cs.Funcs["field:"+f.Origin]; ct != nil {
 				sig := c.Signature()
-				x.applyContract(fr, st, ct, "field:"+f.Origin, sig, nil, args, pos, k)
+				key := "field:" + f.Origin
+				ord := st.callCount(fr.id, key) + 1
+				x.callAsserts(fr, st, key, ord, nil, args, pos)
+				k0 := k
+				k = func(st2 *State, res Value) {
+					st2.calls = &callEntry{frame: fr.id, key: key, res: res, parent: st2.calls}
+					x.afterCall(fr, st2, key, nil, args, res)
+					k0(st2, res)
+				}
+				x.applyContract(fr, st, ct, key, sig, nil, args, pos, k)
 				return
 			}
 		}
@@ -188,6 +197,10 @@ func (x *Exec) callAsserts(fr *Frame, st *State, key string, ord int, fn *ssa.Fu
 			if ict := x.prog.cs.Funcs[key]; ict != nil && len(ict.Params) == len(args)+1 {
 				for i, a := range args {
 					ev.bind["ARG_"+ict.Params[i+1]] = a
+				}
+			} else if ict != nil && len(ict.Params) == len(args) {
+				for i, a := range args {
+					ev.bind["ARG_"+ict.Params[i]] = a
 				}
 			}
 		}
@@ -473,6 +486,8 @@ func (x *Exec) pureResults(st *State, key string, sig *types.Signature, args []V
 			argTerms = append(argTerms, w.ID)
 		case *StructV:
 			argTerms = append(argTerms, x.flattenValue(st, w, w.Typ)...)
+		case *ArrV:
+			argTerms = append(argTerms, x.flattenValue(st, w, w.Typ)...)
 		default:
 			x.abort("pure extern %s with argument %T", key, a)
 		}
@@ -516,7 +531,14 @@ func (x *Exec) havocAssigns(fr *Frame, st *State, ct *Contract, ev *Eval, key st
 		if at != "" {
 			v, ok := ev.bind[at]
 			if !ok {
-				x.abort("assigns %s@%s: unknown parameter", a, at)
+				// an expression over the parameters, e.g. cast(data, promql.Matrix)
+				e, err := x.prog.cs.parseExpr(at)
+				if err != nil {
+					x.abort("assigns %s@%s: %v", a, at, err)
+				}
+				st.quiet++
+				v = ev.eval(e)
+				st.quiet--
 			}
 			switch w := v.(type) {
 			case *PtrV:
@@ -525,6 +547,8 @@ func (x *Exec) havocAssigns(fr *Frame, st *State, ct *Contract, ev *Eval, key st
 				objRef = w.Data
 			case *SliceV:
 				objRef = w.Ptr
+			case *Prim:
+				objRef = w.T
 			default:
 				x.abort("assigns @%s: not a reference", at)
 			}
